@@ -1,5 +1,5 @@
 // target: src/sync.rs
-// labels: valid.insert_entry.* valid.remote.* valid.insert.* valid.delete.* sync.subscribers.*
+// labels: valid.insert_entry.* valid.remote.* valid.insert.* valid.delete.* sync.subscribers.* recon.gate.*
 // tier: quick
 // bound: one document, two replicas (alice writes, bob receives), three subscribers on bob of which the middle one is dropped without
 // unsubscribing and another is unsubscribed later; 6 entries on the direct remote-insert path (2 superseded, 1 malformed) and a
